@@ -8,13 +8,12 @@ From WV Require Import Lib.Conc Model.ChanFlow Proof.ChanFlow Proof.ChanFlowReq 
 Import ListNotations.
 Local Open Scope Z_scope.
 
-Definition sub_io (pc : iopc) : Z := match pc with IoSubL k | IoSubR k | IoSubW k _ => k | _ => 0 end.
+Definition sub_io (pc : iopc) : Z := match pc with IoSubL k => k | _ => 0 end.
 Definition sub_w (pc : wpc) : Z := match pc with WSub _ k => k | _ => 0 end.
 Definition add_w (pc : wpc) : Z := match pc with WAdd n => n | _ => 0 end.
 
 Definition L3 (p : params) (s : state) : Prop :=
   (closed_bufs s = false -> pending s + sub_io (io s) + sub_w (wk s) = total s + add_w (wk s))
-  /\ match io s with IoSubW _ t => t = total s | _ => True end
   /\ 0 <= pending s /\ 0 <= sub_io (io s)
   /\ pending s <= hw p + last_write s
   /\ match wk s with WFbParkedE _ true => total s <= hw p \/ closed_bufs s = true | _ => True end
@@ -57,11 +56,11 @@ Lemma L3_step_io p s r res s' l :
 Proof.
   intros H0 H1 H2 H E. ds s. unfold L3 in H. unfold L0 in H0. unfold L1 in H1. unfold L2 in H2. cbn in H, H0, H1, H2.
   destruct H0 as (Ho & Hc & Hx & _).
-  destruct H1 as (Ha & Hq & Hu & _).
+  destruct H1 as (Ha & Hq & _).
   destruct H2 as (F1 & F2 & F3 & F4 & F5 & F6 & F7 & F8 & F9).
-  destruct H as (A1 & A2 & A3 & A4 & A5 & A6 & A7 & A8 & A9 & A10).
+  destruct H as (A1 & A3 & A4 & A5 & A6 & A7 & A8 & A9 & A10).
   unfold step_io in E. cbn [ChanFlow.io] in E.
-  destruct io0; cbn in A1, A2, A4, A7, F2, F3, F7, F8, Ho, Hc, Hx, Hu.
+  destruct io0; cbn in A1, A4, A7, F2, F3, F7, F8, Ho, Hc, Hx.
   all: cbn in E; unf; cbn in E.
   all: split_ifs E; try discriminate; try inv_some.
   all: fin3.
@@ -72,9 +71,9 @@ Lemma L3_step_w p s r s' l :
 Proof.
   intros H0 H1 H2 H E. ds s. unfold L3 in H. unfold L0 in H0. unfold L1 in H1. unfold L2 in H2. cbn in H, H0, H1, H2.
   destruct H0 as (Ho & Hc & Hx & _).
-  destruct H1 as (Ha & Hq & Hu & _).
+  destruct H1 as (Ha & Hq & _).
   destruct H2 as (F1 & F2 & F3 & F4 & F5 & F6 & F7 & F8 & F9).
-  destruct H as (A1 & A2 & A3 & A4 & A5 & A6 & A7 & A8 & A9 & A10).
+  destruct H as (A1 & A3 & A4 & A5 & A6 & A7 & A8 & A9 & A10).
   unfold step_w in E. cbn [ChanFlow.wk] in E.
   destruct wk0; cbn in A1, A6, F6, F9, Ho, Hc, Hx, Ha, Hq.
   all: cbn in E; unf; cbn in E.
@@ -85,11 +84,11 @@ Qed.
 Lemma L3_step p s c s' l :
   L0 s -> L1 p s -> L2 s -> L3 p s -> step p s c = Some (s', l) -> L3 p s'.
 Proof.
-  destruct c as [r res|r|b|a]; cbn [step].
+  destruct c as [r res|r|n|a]; cbn [step].
   - apply L3_step_io.
   - apply L3_step_w.
-  - intros _ _ _ H E. ds s. unfold step_tail in E. cbn in E.
-    split_ifs E; try discriminate; inv_some; exact H.
+  - intros _ _ _ H E. ds s. unfold step_tail in E. destruct n as [|[|[|[|[|[|n]]]]]]; cbn in E; try discriminate.
+    all: split_ifs E; try discriminate; inv_some; exact H.
   - intros _ _ _ H E. ds s. destruct a; cbn in E; split_ifs E; try discriminate; inv_some; exact H.
 Qed.
 
@@ -134,7 +133,7 @@ Theorem order_counts p sched : 0 <= hw p ->
   wire s + pending s <= appended s /\ (closed_bufs s = false -> wire s + pending s = appended s).
 Proof.
   intros H s. destruct (Lall_run p sched H) as (_ & _ & _ & L). fold s in L.
-  destruct L as (_ & _ & _ & _ & _ & _ & _ & L8 & L9 & _). split; assumption.
+  destruct L as (_ & _ & _ & _ & _ & _ & L8 & L9 & _). split; assumption.
 Qed.
 
 Theorem accounting p sched : 0 <= hw p ->
@@ -144,4 +143,24 @@ Theorem accounting p sched : 0 <= hw p ->
 Proof.
   intros H s C. destruct (Lall_run p sched H) as (_ & _ & _ & L). fold s in L.
   destruct L as (L1 & _). auto.
+Qed.
+
+(* every mutation of the outbufs / of total_outbufs_len happens under outbuf_lock *)
+Definition io_touches (pc : iopc) : bool :=
+  match pc with IoFlush | IoSubL _ | IoHcTot _ => true | _ => false end.
+Definition w_touches (pc : wpc) : bool :=
+  match pc with WFlush _ _ | WSub _ _ | WFlushExn _ | WAdd _ => true | _ => false end.
+
+Theorem touches_locked p sched :
+  let s := run p sched in
+  (io_touches (io s) = true -> olock s = Some TIo /\ w_touches (wk s) = false)
+  /\ (w_touches (wk s) = true -> olock s = Some TW /\ io_touches (io s) = false).
+Proof.
+  intros s. destruct (L0_all p sched) as (Ho & _ & Hx & _). fold s in Ho, Hx.
+  split; intros T.
+  - assert (Hh : io_holds (io s) = true) by (destruct (io s); cbn in *; congruence).
+    rewrite Hh in *. cbn in Hx. split; auto. destruct (wk s); cbn in *; congruence.
+  - assert (Hh : w_holds (wk s) = true) by (destruct (wk s); cbn in *; congruence).
+    rewrite Hh in *. rewrite andb_true_r in Hx. rewrite Hx in Ho. split; auto.
+    destruct (io s); cbn in *; try congruence; destruct k; cbn in *; congruence.
 Qed.
